@@ -375,12 +375,14 @@ def correspondence(ctx, cfg_comp, label=None):
                 if h not in seen:
                     seen.add(h)
             if div is not None:
-                bad.append((lines, div))
+                i0 = seq[div]
+                bad.append((lines, div, {"op": ops[i0], "impl": impl[i0] if i0 < len(impl) else "<no-output>",
+                                         "model": (mod[i0] if i0 < len(mod) else "<no-output>").split("\t")[0]}))
             elif len(ctx.cov["samples"]) < 3 and nontriv and 3 <= len(seq) <= 14:
                 ctx.cov["samples"].append({"component": label, "ops": lines,
                                            "observations": [impl[i] for i in seq]})
         log("  %s %s: %d sequences, %d ops, %d diverging" % (label, name, len(seqs), len(ops), len(bad)))
-        for lines, div in bad[:3]:
+        for lines, div, orig in bad[:3]:
             small = shrink(ctx, vcorr, lines)
             d, im, mo, sp = eval_seq(ctx, vcorr, small)
             if d is None:   # flaky: keep the original
@@ -388,7 +390,7 @@ def correspondence(ctx, cfg_comp, label=None):
                 d, im, mo, sp = eval_seq(ctx, vcorr, small)
             payload = {"component": label, "generator": name, "ops": small,
                        "impl": im[:len(small)], "model": mo[:len(small)], "spec": sp[:len(small)],
-                       "first_divergence": d}
+                       "first_divergence": d, "original_divergence": orig}
             ctx.problems.append(("divergence", "implementation and model disagree on a %s sequence" % label, payload))
         if bad:
             break
